@@ -1,5 +1,5 @@
 // auto-generated: "lalrpop 0.23.1"
-// sha3: 4ba1fb29ee348c1b2c8a0a5c83fb8cea5c2edc098cce5cd797cf799ec90f025e
+// sha3: e0901e9c8d0564030b89aec9246de640c6388909c538dce3a6d0417bac80e64d
 use crate::rt::*;
 #[allow(unused_extern_crates)]
 extern crate lalrpop_util as __lalrpop_util;
@@ -455,13 +455,12 @@ fn __action0<
 fn __action1<
 >(
     (_, l, _): (i64, i64, i64),
-    (_, pR0, _): (i64, i64, i64),
     (_, c0, _): (i64, Tree, i64),
     (_, c1, _): (i64, Tok, i64),
     (_, r, _): (i64, i64, i64),
 ) -> Tree
 {
-    { probe("S#0", 0, 'R', pR0); node("S#0", l, r, vec![Tree::from(c0), Tree::from(c1)]) }
+    node("S#0", l, r, vec![Tree::from(c0), Tree::from(c1)])
 }
 
 #[allow(clippy::too_many_arguments, clippy::needless_lifetimes, clippy::just_underscores_and_digits, clippy::extra_unused_type_parameters)]
@@ -480,22 +479,22 @@ fn __action3<
 >(
     (_, l, _): (i64, i64, i64),
     (_, c0, _): (i64, Tree, i64),
-    (_, pR1, _): (i64, i64, i64),
     (_, r, _): (i64, i64, i64),
 ) -> Tree
 {
-    { probe("B#0", 1, 'R', pR1); node("B#0", l, r, vec![Tree::from(c0)]) }
+    node("B#0", l, r, vec![Tree::from(c0)])
 }
 
 #[allow(clippy::too_many_arguments, clippy::needless_lifetimes, clippy::just_underscores_and_digits, clippy::extra_unused_type_parameters)]
 fn __action4<
 >(
     (_, l, _): (i64, i64, i64),
+    (_, pL0, _): (i64, i64, i64),
     (_, c0, _): (i64, Tok, i64),
     (_, r, _): (i64, i64, i64),
 ) -> Tree
 {
-    node("C#0", l, r, vec![Tree::from(c0)])
+    { probe("C#0", 0, 'L', pL0); node("C#0", l, r, vec![Tree::from(c0)]) }
 }
 
 #[allow(clippy::too_many_arguments, clippy::needless_lifetimes, clippy::just_underscores_and_digits, clippy::extra_unused_type_parameters)]
@@ -556,7 +555,6 @@ fn __action9<
 >(
     __0: (i64, Tree, i64),
     __1: (i64, i64, i64),
-    __2: (i64, i64, i64),
 ) -> Tree
 {
     let __start0 = __0.0.clone();
@@ -570,7 +568,6 @@ fn __action9<
         __temp0,
         __0,
         __1,
-        __2,
     )
 }
 
@@ -584,13 +581,21 @@ fn __action10<
 {
     let __start0 = __0.0.clone();
     let __end0 = __0.0.clone();
+    let __start1 = __0.0.clone();
+    let __end1 = __0.0.clone();
     let __temp0 = __action7(
         &__start0,
         &__end0,
     );
     let __temp0 = (__start0, __temp0, __end0);
+    let __temp1 = __action7(
+        &__start1,
+        &__end1,
+    );
+    let __temp1 = (__start1, __temp1, __end1);
     __action4(
         __temp0,
+        __temp1,
         __0,
         __1,
     )
@@ -620,10 +625,9 @@ fn __action11<
     clippy::just_underscores_and_digits, clippy::clone_on_copy, clippy::unit_arg)]
 fn __action12<
 >(
-    __0: (i64, i64, i64),
-    __1: (i64, Tree, i64),
-    __2: (i64, Tok, i64),
-    __3: (i64, i64, i64),
+    __0: (i64, Tree, i64),
+    __1: (i64, Tok, i64),
+    __2: (i64, i64, i64),
 ) -> Tree
 {
     let __start0 = __0.0.clone();
@@ -638,7 +642,6 @@ fn __action12<
         __0,
         __1,
         __2,
-        __3,
     )
 }
 
@@ -671,22 +674,14 @@ fn __action14<
 {
     let __start0 = __0.2.clone();
     let __end0 = __0.2.clone();
-    let __start1 = __0.2.clone();
-    let __end1 = __0.2.clone();
     let __temp0 = __action6(
         &__start0,
         &__end0,
     );
     let __temp0 = (__start0, __temp0, __end0);
-    let __temp1 = __action6(
-        &__start1,
-        &__end1,
-    );
-    let __temp1 = (__start1, __temp1, __end1);
     __action9(
         __0,
         __temp0,
-        __temp1,
     )
 }
 
@@ -738,25 +733,17 @@ fn __action17<
     __1: (i64, Tok, i64),
 ) -> Tree
 {
-    let __start0 = __0.0.clone();
-    let __end0 = __0.0.clone();
-    let __start1 = __1.2.clone();
-    let __end1 = __1.2.clone();
+    let __start0 = __1.2.clone();
+    let __end0 = __1.2.clone();
     let __temp0 = __action6(
         &__start0,
         &__end0,
     );
     let __temp0 = (__start0, __temp0, __end0);
-    let __temp1 = __action6(
-        &__start1,
-        &__end1,
-    );
-    let __temp1 = (__start1, __temp1, __end1);
     __action12(
-        __temp0,
         __0,
         __1,
-        __temp1,
+        __temp0,
     )
 }
 
